@@ -1583,6 +1583,9 @@ class IntegrityProtectedSKEDataV1(IntegrityProtectedSKEData):
         if not constant_time.bytes_eq(bytes(pt[-22:]), _expected_mdcbytes):
             raise PGPDecryptionError("Decryption failed")  # pragma: no cover
 
+        # the modification detection code belongs to the encrypted container, not to the message inside it
+        del pt[-22:]
+
         iv = bytes(pt[:alg.block_size // 8])
         del pt[:alg.block_size // 8]
 
